@@ -55,6 +55,9 @@ class AbstractDenseTimeOnlineInterpreter(AbstractOnlineInterpreter, DenseTimeInt
         super(AbstractDenseTimeOnlineInterpreter, self).set_ast(ast)
         # the new operations have not seen the constant signals yet
         self.updateVisitor.constants_sent = False
+        # and no variable has samples yet, as after every update(): declare_var() leaves a number
+        # there, and reset() must not keep the batch of an update that raised
+        self.ast.var_object_dict = self.ast.var_object_dict.fromkeys(self.ast.var_object_dict, [])
 
     def update_final(self, dataset):
         # check ast exists
